@@ -5,7 +5,7 @@ Sections
   1 zoom_linear     every coordinate of `generate_pdf` is `zoom ×` its value at zoom 1 (BleedBox: while the 10 pt
                     cap is not reached — `Witness.C19.bleedbox_cap_not_linear`), the page rectangle ignores zoom
   2 copy_pages      `Document.copy(pages)` + `resolve_links` + the page loop write exactly the selected pages (every
-                    variant; an empty selection as `pdf/ua-1` fails — `Witness.C19.pdfua_empty_selection_fails`)
+                    variant, every selection)
   3 three_sinks     the three targets of `write_pdf` get one `pdf.write` with identical arguments
   5 fresh_state     successive renders share no object the caller did not hand in; generated module-state whitelist
   4 cache_transparent  a shared image cache returns the cold value (fixed options, deterministic fetcher); the key
@@ -284,11 +284,9 @@ theorem zoom_linear (z : Rat) (hz : z ≠ 0) (ua : Bool) (d : Document) :
   | error e => rfl
   | ok outlines =>
     simp only [Except.map]
-    by_cases c1 : ua = true ∧ d.pages = []
-    · simp only [if_pos c1]
-    · by_cases c2 : ua = true ∧ d.hasHtml = false
-      · simp only [if_neg c1, if_pos c2]
-      · simp only [if_neg c1, if_neg c2, eraseBleed, scaleOut, Except.ok.injEq, PdfOut.mk.injEq, and_true,
+    by_cases c2 : ua = true ∧ d.hasHtml = false ∧ d.pages ≠ []
+    · simp only [if_pos c2]
+    · · simp only [if_neg c2, eraseBleed, scaleOut, Except.ok.injEq, PdfOut.mk.injEq, and_true,
           List.map_map]
         refine ⟨?_, ?_⟩
         · have := pagesPdf_zoom_noBleed z hz d.pages (resolveLinks d.pages)
@@ -309,11 +307,9 @@ theorem zoom_linear_partial (z : Rat) (hz : z ≠ 0) (ua : Bool) (d : Document)
   | error e => rfl
   | ok outlines =>
     simp only [Except.map]
-    by_cases c1 : ua = true ∧ d.pages = []
-    · simp only [if_pos c1]
-    · by_cases c2 : ua = true ∧ d.hasHtml = false
-      · simp only [if_neg c1, if_pos c2]
-      · simp only [if_neg c1, if_neg c2, scaleOut, Except.ok.injEq, PdfOut.mk.injEq, and_true]
+    by_cases c2 : ua = true ∧ d.hasHtml = false ∧ d.pages ≠ []
+    · simp only [if_pos c2]
+    · · simp only [if_neg c2, scaleOut, Except.ok.injEq, PdfOut.mk.injEq, and_true]
         refine ⟨pagesPdf_zoom_capFree z hz d.pages _ hcap, ?_⟩
         rw [allDests_zoom z, sortDests_scale]
 
@@ -715,8 +711,6 @@ theorem generatePdf_spec (z : Rat) (ua : Bool) (d : Document) (o : PdfOut) (h : 
     · cases h
     · split at h
       · cases h
-      split at h
-      · cases h
       simp only [Except.ok.injEq] at h
       subst h
       generalize d.pages = ps
@@ -787,24 +781,38 @@ theorem copy_geometry_agrees (z : Rat) (ua : Bool) (d : Document) (ps : List Pag
 theorem copy_all_same_pdf (z : Rat) (ua : Bool) (d : Document) :
     generatePdf z ua (copy d .all) = generatePdf z ua d := rfl
 
-/-- `generate_pdf` with a variant that reads the HTML tree (`pdf/ua-1`).  Full statement (false for an empty page
-list: `pdfua` reads its loop variable after a loop that never ran — `Witness.C19.pdfua_empty_selection_fails`):
-total for zoom ≠ 0, bookmark levels ≥ 1 and a document that has its source HTML.  Proved for at least one page. -/
-theorem generatePdf_pdfua_total_partial (z : Rat) (hz : z ≠ 0) (d : Document)
-    (hl : ∀ p ∈ d.pages, ∀ b ∈ p.bookmarks, 1 ≤ b.level) (hh : d.hasHtml = true) (hp : d.pages ≠ []) :
+/-- `generate_pdf` with a variant that reads the HTML tree (`pdf/ua-1`) is total for zoom ≠ 0, bookmark levels ≥ 1 and
+a document that has its source HTML — or no page at all (full strength since `pdfua` initialises its loop variable:
+`pdfua-empty-selection` repaired). -/
+theorem generatePdf_pdfua_total (z : Rat) (hz : z ≠ 0) (d : Document)
+    (hl : ∀ p ∈ d.pages, ∀ b ∈ p.bookmarks, 1 ≤ b.level) (hh : d.hasHtml = true ∨ d.pages = []) :
     ∃ o, generatePdf z true d = .ok o := by
   obtain ⟨out, h⟩ := docOutlines_ok (scale z) 0 ⟨[], 0⟩ d.pages (by simp [BmInv, sumL]) hl
   have hs : ¬ (scale z = 0 ∧ d.pages ≠ []) := fun c => scale_ne_zero hz c.1
+  have hc : ¬ (True ∧ d.hasHtml = false ∧ d.pages ≠ []) := by
+    rintro ⟨_, h1, h2⟩
+    rcases hh with hh | hh
+    · rw [hh] at h1; cases h1
+    · exact h2 hh
   refine ⟨⟨pagesPdf (scale z) d.pages (resolveLinks d.pages),
     sortDests (allDests (scale z) 0 d.pages (resolveLinks d.pages)), out⟩, ?_⟩
-  simp only [generatePdf, if_neg hs, h, hh, hp, and_false, if_false, Bool.true_eq_false]
+  simp only [generatePdf, if_neg hs, h]
+  exact if_neg hc
 
-/-- The repair of `copy-drops-html` at theorem level: a non-empty selection of pages of a rendered document can be
-written as `pdf/ua-1` (the copy still has the source HTML). -/
+/-- The repairs of `copy-drops-html` and `pdfua-empty-selection` at theorem level: every selection (the empty one
+included) of pages of a rendered document can be written as `pdf/ua-1`. -/
 theorem copy_pdfua_succeeds (z : Rat) (hz : z ≠ 0) (d : Document) (ps : List Page)
-    (hl : ∀ p ∈ ps, ∀ b ∈ p.bookmarks, 1 ≤ b.level) (hh : d.hasHtml = true) (hp : ps ≠ []) :
+    (hl : ∀ p ∈ ps, ∀ b ∈ p.bookmarks, 1 ≤ b.level) (hh : d.hasHtml = true) :
     ∃ o, generatePdf z true (copy d (.pages ps)) = .ok o :=
-  generatePdf_pdfua_total_partial z hz (copy d (.pages ps)) hl hh hp
+  generatePdf_pdfua_total z hz (copy d (.pages ps)) hl (Or.inl hh)
+
+/-- Regression example for the repaired `pdfua-empty-selection`: the empty selection of a rendered document, and a
+hand-made document without pages and without source HTML, are written as `pdf/ua-1` (and as a plain PDF). -/
+example :
+    let d : Document := ⟨[⟨100, 80, ⟨0, 0, 0, 0⟩, [], [], []⟩, ⟨100, 80, ⟨0, 0, 0, 0⟩, [], [], []⟩], 1, 2, 3, true⟩
+    (generatePdf 1 true (copy d (.pages []))).toBool = true ∧ (generatePdf 1 false (copy d (.pages []))).toBool = true ∧
+    (generatePdf 1 true ⟨[], 1, 2, 3, false⟩).toBool = true := by
+  decide +kernel
 
 /-- Regression example for the repaired `copy-drops-html`: a rendered two-page document, `copy('all')` and the copy of
 its first page are all written as `pdf/ua-1`. -/
@@ -818,7 +826,7 @@ example :
 example : (∃ o, generatePdf 1 false (copy exampleDoc (.pages exampleDoc.pages)) = .ok o) ∧
     (∃ o, generatePdf 1 true (copy exampleDoc (.pages exampleDoc.pages)) = .ok o) :=
   ⟨generatePdf_total 1 (by norm_num) _ (by decide),
-   copy_pdfua_succeeds 1 (by norm_num) exampleDoc exampleDoc.pages (by decide) rfl (by decide)⟩
+   copy_pdfua_succeeds 1 (by norm_num) exampleDoc exampleDoc.pages (by decide) rfl⟩
 
 
 /-! ## 3 three sinks -/
